@@ -17,14 +17,14 @@ ENV = {"LC_ALL": "C.UTF-8", "TZ": "UTC", "PATH": "/usr/bin:/bin", "ASAN_OPTIONS"
 
 
 # ---------------------------------------------------------------------------------------------- attribute handlers
-def gen_attr_history(rnd, hid):
+def gen_attr_history(rnd, hid, races=False):
     ops = []
     live = {}          # handler -> kind
     nproc = rnd.randint(1, 4)
     for p in range(nproc):
         ops.append({"op": "setapp", "org": rnd.choice(ORGS), "name": rnd.choice(NAMES), "ver": rnd.choice(VERS)})
         for _ in range(rnd.randint(1, 8)):
-            k = rnd.choice(["setapp", "info", "uuid", "uuid", "uuid", "sys", "msg", "msg", "msg", "drop"])
+            k = rnd.choice(["setapp", "info", "uuid", "uuid", "uuid", "sys", "msg", "msg", "msg", "drop"] + (["race", "race"] if races else []))
             free = [h for h in (1, 2, 3, 4) if h not in live]
             if k == "setapp":
                 ops.append({"op": "setapp", "org": rnd.choice(ORGS), "name": rnd.choice(NAMES), "ver": rnd.choice(VERS)})
@@ -35,6 +35,8 @@ def gen_attr_history(rnd, hid):
                 if k == "uuid" and rnd.random() < 0.6:
                     op["name"] = rnd.choice(UNAMES)
                 ops.append(op)
+            elif k == "race" and len(free) >= 2:
+                ops.append({"op": "race", "h1": free[0], "h2": free[1]})
             elif k == "msg" and live:
                 ops.append({"op": "msg", "h": rnd.choice(sorted(live))})
             elif k == "drop" and live:
@@ -48,9 +50,9 @@ def gen_attr_history(rnd, hid):
     return {"id": hid, "ops": ops}
 
 
-def attrs_campaign(bdir, rnd, n, work):
+def attrs_campaign(bdir, rnd, n, work, races=False):
     work.mkdir(parents=True, exist_ok=True)
-    hists = [gen_attr_history(rnd, i + 1) for i in range(n)]
+    hists = [gen_attr_history(rnd, i + 1, races) for i in range(n)]
     inp = work / "env_attrs.in"
     inp.write_text("".join(json.dumps(h) + "\n" for h in hists))
     scratch = work / "env_scratch"
@@ -84,6 +86,19 @@ def attrs_campaign(bdir, rnd, n, work):
             s = e["attrs"][0][1]
             ev.update(attrs=e["attrs"], u=uu.setdefault(s, len(uu) + 1), uu=[ord(c) for c in s],
                       name=op.get("name", "app_uuid"), want=[])
+        elif e["op"] == "race":
+            # renaming of the UUID strings: new ones are numbered in the order they must have been generated - the one the
+            # settings hold afterwards was written last
+            u1s, u2s, st = e["uuids"][0], e["uuids"][1], e["stored"]
+            order = [u1s, u2s] if st != u1s else [u2s, u1s]
+            for x in order:
+                uu.setdefault(x, len(uu) + 1)
+            for _ in range(4):
+                runs[-1].append({"e": "A", "op": "rstep", "h": 0, "h1": op["h1"], "h2": op["h2"]})
+            runs[-1].append({"e": "A", "op": "rend", "h": 0, "h1": op["h1"], "h2": op["h2"], "u1": uu[u1s], "u2": uu[u2s],
+                             "stored": uu.get(st, -1), "uu1": [ord(c) for c in u1s], "uu2": [ord(c) for c in u2s],
+                             "raced": u1s != u2s})
+            continue
         elif e["op"] == "sys":
             pending_want = [e["want"][k] for k in SYSKEYS]
             runs[-1].append(dict(ev, want=pending_want))
@@ -107,10 +122,12 @@ def attrs_campaign(bdir, rnd, n, work):
                     want = {}
                 else:
                     want.pop(ev["h"], None)
-    accepted, failures = C.validate_runs("Trace_Env", "Trace_Env.cfg", runs, work, "env", chunk=200)
+    accepted, failures = C.validate_runs("Trace_Env", "Trace_Env_race.cfg" if races else "Trace_Env.cfg", runs, work, "env", chunk=200)
     info = {"histories": len(runs), "steps": sum(len(r) - 1 for r in runs),
             "processes": sum(1 for r in runs for e in r if e["e"] == "Start"),
             "uuid_handlers": sum(1 for r in runs for e in r if e.get("op") == "uuid"),
+            "simultaneous_constructions": sum(1 for r in runs for e in r if e.get("op") == "rend"),
+            "simultaneous_constructions_that_showed_two_uuids": sum(1 for r in runs for e in r if e.get("op") == "rend" and e["raced"]),
             "restarts_with_wipe": sum(1 for r in runs for e in r if e.get("op") == "restart" and e["wipe"])}
     return accepted, failures, info
 
